@@ -84,12 +84,12 @@ package revocation
 //@   ensures cdpConfig.CRLCDPStrict == old(cdpConfig.CRLCDPStrict)
 
 //@ func parseSignatureValidationMode
-//@   props C16 C19
+//@   props C04 C16 C19
 //@   requires crlCfg != nil
 //@   assigns config.CRLConfig.SignatureValidationModeParsed
-//@   ensures[C16,C19] unset_means_verify: old(crlCfg.SignatureValidationMode) == "" ==> err == nil && crlCfg.SignatureValidationModeParsed == config.SignatureValidationModeVerify
-//@   ensures[C16,C19] table: err == nil ==> crlCfg.SignatureValidationModeParsed == sigModeOf(old(crlCfg.SignatureValidationMode))
-//@   ensures[C16,C19] unknown_rejected: (err == nil) == knownSigMode(old(crlCfg.SignatureValidationMode))
+//@   ensures[C04,C16,C19] unset_means_verify: old(crlCfg.SignatureValidationMode) == "" ==> err == nil && crlCfg.SignatureValidationModeParsed == config.SignatureValidationModeVerify
+//@   ensures[C04,C16,C19] table: err == nil ==> crlCfg.SignatureValidationModeParsed == sigModeOf(old(crlCfg.SignatureValidationMode))
+//@   ensures[C04,C16,C19] unknown_rejected: (err == nil) == knownSigMode(old(crlCfg.SignatureValidationMode))
 
 //@ func parseStorageType
 //@   props C19
